@@ -126,7 +126,7 @@ class C12(Check):
                   'not proof: exploration is the honest level for a schedule-quantified property.')
     level_note = ('Trusted: CPython 3.12 sys.monitoring event delivery, the baton scheduler, GIL atomicity of '
                   'single instructions. Yield points exist only in clastic/generated/harness code.')
-    runs = {'quick': 2400, 'thorough': 60000}
+    runs = {'quick': 4000, 'thorough': 100000}
     shrink_lists = (('preempts',), ('requests',))
     hashseeds = {'quick': [1], 'thorough': [1, 2]}
     rule = ('seeded schedules (PCT priority-change, uniform random, targeted bursts) plus a complete '
